@@ -12,6 +12,7 @@ import tempfile
 import time
 import traceback
 import z3
+from z3 import z3util
 
 from .values import *
 from .ctx import Ctx, PyRaise, Unsupported, Infeasible, PathLimit, explore, Obligation
@@ -284,6 +285,13 @@ def verify_contract(c, reg, timeout_ms=QUICK_TIMEOUT_MS, max_paths=4000, want_sm
         penv.update(olds)
         penv['call_args'] = call_kwargs
         penv['locals'] = getattr(ip, 'top_locals', None) or {}
+        gh = dict(ctx.ghost)
+        if outcome.kind == 'return' and gh.get('entropy_draws'):
+            names = set()
+            for t in _terms_of(result):
+                names |= _const_names(t)
+            gh['result_depends_on_entropy'] = any(n.startswith('urandom') or n.startswith('entropy_') for n in names)
+        penv['ghost'] = gh
         if outcome.kind == 'raise':
             exc = outcome.detail.exc
             cond_fn = None
@@ -393,6 +401,50 @@ def verify_contract(c, reg, timeout_ms=QUICK_TIMEOUT_MS, max_paths=4000, want_sm
     out['obligations'] = list(agg.values())
     out['wall_s'] = time.time() - t0
     return out
+
+
+def _const_names(t):
+    """names of the uninterpreted constants in a term (DAG traversal)"""
+    seen, out, stack = set(), set(), [t]
+    while stack:
+        e = stack.pop()
+        i = e.get_id()
+        if i in seen:
+            continue
+        seen.add(i)
+        if z3.is_const(e) and e.decl().kind() == z3.Z3_OP_UNINTERPRETED:
+            out.add(e.decl().name())
+        else:
+            stack.extend(e.children())
+    return out
+
+
+def _terms_of(v, depth=0):
+    """all z3 terms inside a symbolic value"""
+    if depth > 6:
+        return
+    if isinstance(v, (SInt, SBool, SFloat)):
+        yield v.t
+    elif isinstance(v, (SBytes, SStr)):
+        for p in v.parts:
+            if isinstance(p, list):
+                for x in p:
+                    if not isinstance(x, int):
+                        yield x
+            else:
+                yield p.term
+    elif isinstance(v, (list, tuple)):
+        for x in v:
+            yield from _terms_of(x, depth + 1)
+    elif isinstance(v, dict):
+        for x in v.values():
+            yield from _terms_of(x, depth + 1)
+    elif isinstance(v, Rec):
+        for x in v.attrs.values():
+            yield from _terms_of(x, depth + 1)
+    elif isinstance(v, SList):
+        for x in v.tail:
+            yield from _terms_of(x, depth + 1)
 
 
 def _short(v):
@@ -657,6 +709,7 @@ def replay_native(c, conc, warmup=None, rng=None):
     penv.update(olds)
     penv['call_args'] = kwargs
     penv['locals'] = None
+    penv['ghost'] = None
     if exc is not None:
         rep['observed'] = 'raises %s: %s' % (type(exc).__name__, exc)
         allowed = None
